@@ -59,7 +59,9 @@ def extract():
     facts = {"codes": {f: disc[k] for k, f in CODE_FIELDS}, "toErrorCode": sorted(table), "routeOrder": order,
              "routeCodes": {k: disc[v] for k, v in route_codes.items()}, "notifyValue": int(notify_test.group(1)) if notify_test else 0,
              "unknownQueryFormatIs": unknown_qf.group(1) if unknown_qf else "?", "versionTestIsNe": bool(vt and vt.group(1) == "!="),
-             "routeRejectSites": len(re.findall(r"RouteOutcome::Reject\s*\{", rb)), "routeDispatchSites": len(re.findall(r"RouteOutcome::Dispatch\s*\{", rb))}
+             "routeRejectSites": len(re.findall(r"RouteOutcome::Reject\s*\{", rb)), "routeDispatchSites": len(re.findall(r"RouteOutcome::Dispatch\s*\{", rb)),
+             # byte-range slices of the query / path inside route() (a `&path[..n]` can panic on a char boundary)
+             "routeSlices": len(re.findall(r"\[[^\]\n]*\.\.[^\]\n]*\]", rb))}
     facts.update(handler_facts(disc, dict(table)))
     facts["serve"] = serve_facts(sr)
     return facts
@@ -327,6 +329,7 @@ def render(f):
          f"def versionTestIsNe : Bool := {'true' if f['versionTestIsNe'] else 'false'}",
          f"def routeRejectSites : Nat := {f['routeRejectSites']}",
          f"def routeDispatchSites : Nat := {f['routeDispatchSites']}",
+         f"def routeSlices : Nat := {f['routeSlices']}",
          ]
     b = lambda x: "true" if x else "false"
     L.append("def decodeFacts : HKind → Entry → DecodeFacts")
